@@ -97,9 +97,9 @@ func c01Stress(t *testing.T, focus string) {
 		z = (z ^ (z >> 27)) * 0x94d049bb133111eb
 		return z ^ (z >> 31)
 	}
-	rounds, opsPer := 6, 5000
+	rounds, opsPer := 14, 5000
 	if vfkit.Tier() == "thorough" {
-		rounds, opsPer = 60, 20000
+		rounds, opsPer = 300, 20000
 	}
 	for r := 0; r < rounds; r++ {
 		producers := 3 + int(next()%10)
